@@ -582,6 +582,13 @@ pub fn decorate(feats: &mut [FeatSpec], r: &mut Rng, cdata: bool) {
             sc.name.push_str(&sfx(r));
             for s in sc.steps.iter_mut() {
                 s.text.push_str(&sfx(r));
+                // doc strings and data tables (printed by Basic / JUnit, ignored by the others)
+                if r.chance(1, 6) {
+                    s.doc = Some(format!("doc line one{}\n  second <line> & more", sfx(r)));
+                }
+                if r.chance(1, 6) {
+                    s.table = Some(vec![vec!["k".into(), format!("v{}", sfx(r))], vec!["longer key".into(), "1".into()]]);
+                }
             }
         }
     }
